@@ -13,9 +13,9 @@ CHECKS = {
              "params_quick": {"budget": 1, "chain": 2, "nops": 4, "leaves": 3, "fam_lo": 1, "ctx3": 1, "polykinds": 3},
              "params_thorough": {"budget": 1, "chain": 3, "nops": 6, "leaves": 4, "fam_lo": 1, "nctx": 16},
              "covers": {"VerifC05Expr": ["value", "runtime-error"]}},
-            {"harness": ["internal/vsess.VerifC05Stmt", "internal/vsess.VerifC05Lists"], "pkgs": ["./internal/vsess"], "fuel": 3000000,
+            {"harness": ["internal/vsess.VerifC05Stmt", "internal/vsess.VerifC05Lists", "internal/vsess.VerifC05Wide"], "pkgs": ["./internal/vsess"], "fuel": 6000000,
              "params_quick": {"sdepth": 1, "polykinds": 3}, "params_thorough": {"sdepth": 2},
-             "covers": {"VerifC05Stmt": ["value", "runtime-error"], "VerifC05Lists": ["done"]}},
+             "covers": {"VerifC05Stmt": ["value", "runtime-error"], "VerifC05Lists": ["done"], "VerifC05Wide": ["done"]}},
         ],
         "bound_text": "expression families: trees with <= budget operator/wrapper nodes (quick 1, thorough 2) over 13 non-operator positions, operator-in-position-in-operator sandwiches, operator chains (quick 2, thorough 3), e-op-e, if/else; 16 statement embeddings (quick: all 16 for small trees, used/discarded/function-tail for the other families); operators: one representative per VM dispatch group; operand kinds nil/int/float/bool symbolic, strings/arrays of length <= 2",
         "assumptions": ["generated trees are exactly trees the parser can produce (statement forms only in statement positions)"],
